@@ -116,6 +116,8 @@ func init() {
 					add(h, "H_C16I")
 				}
 			}
+			// the executor's restricted select against the native run (translator validation)
+			out = append(out, cs("H_Self_Select"))
 			return out
 		},
 	}
